@@ -175,7 +175,7 @@ func genCase(r *rand.Rand, profile, order string, cycle bool, size int, mode str
 	for len(ents) < size {
 		k := r.Intn(100)
 		if profile == "all" && r.Intn(100) < 9 {
-			// package-level comma-ok declaration (2d7bcd6) and the map it reads
+			// package-level comma-ok declaration (e4c80e1) and the map it reads
 			if len(p.maps) == 0 || r.Intn(4) == 0 {
 				n := fmt.Sprintf("mp%d", nMp)
 				nMp++
